@@ -123,9 +123,11 @@ def minimise(check, ctx, case, clause, budget=400):
     re-execution. Order: explicit schedule (ddmin over fired collection points), then whatever structural
     candidates the check offers, then simpler memory policies."""
     spent = [0]
+    deadline = time.time() + 120.0
 
     def fails(candidate):
-        if spent[0] >= budget:
+        # bounded in replays and in wall-clock time (a candidate that hangs costs a whole job timeout)
+        if spent[0] >= budget or time.time() > deadline:
             return False
         spent[0] += 1
         outcome = check.judge(ctx, candidate)
